@@ -179,12 +179,39 @@ func (w *World) newQuants(n, depth, maxDepth int, filter func(AtomKind) bool) []
 			q.Path = Pred{Prefix: "ex", Local: "r" + tag, Inverse: true}
 		}
 		q.PathStr = PrintPath(q.Path)
-		q.InnerAtoms = w.newAtoms(1+w.R.Intn(2), filter)
+		q.InnerAtoms = w.newAtoms(1+w.R.Intn(3), filter)
 		if depth > 1 && w.R.Intn(2) == 0 {
 			q.InnerQuants = w.newQuants(1, depth-1, maxDepth, filter)
 		}
 		gen := &LeafGen{R: w.R, Atoms: q.InnerAtoms, Quants: q.InnerQuants, MaxDepth: maxDepth - 1}
 		q.Inner = w.boundedFormula(gen, q.InnerAtoms, q.InnerQuants, 8, 30)
+		if len(q.InnerAtoms)+len(q.InnerQuants) >= 2 && w.R.Intn(3) == 0 {
+			// the body is directly a disjunction (or its dual) with composite operands: the reached nodes fail it
+			// in different ways, the sets of failing nodes of the expanded branches must be united
+			var ops []F
+			for k := 0; k < 2+w.R.Intn(2); k++ {
+				var conj []F
+				for j := 0; j < 1+w.R.Intn(3); j++ {
+					var l F = gen.leaf()
+					if w.R.Intn(3) == 0 {
+						l = FNot{l}
+					}
+					conj = append(conj, l)
+				}
+				if len(conj) == 1 {
+					ops = append(ops, conj[0])
+				} else {
+					ops = append(ops, FAnd{conj})
+				}
+			}
+			var f F = FOr{ops}
+			if w.R.Intn(3) == 0 {
+				f = FNot{FAnd{ops}}
+			}
+			if b, t := w.Cost(f, false); b <= 30 && t <= 120 {
+				q.Inner = ensureLeaves(f, q.InnerAtoms, q.InnerQuants, w.R)
+			}
+		}
 		if w.R.Intn(3) == 0 {
 			// a twin over the same path and the same reached nodes: e.g. atLeast 1 and atMost 3 of the same children
 			kinds := []string{"nested", "atLeast", "atMost"}
